@@ -16,7 +16,7 @@ BOUNDS = {
     'quick': 'ensemble_sift with 2..3 members on 1..2 worker processes (every job-to-worker assignment up to worker renaming is a solver-side '
              'choice), noise modes {single, flip}; complete_ensemble_sift with 2 members; N = 4 symbolic samples; noise draws are solver variables '
              'named by (stream state, position), process fork copies the stream state; zero-noise clause: N = 6, caps 1..2, real sift',
-    'thorough': 'up to 4 members on up to 3 workers; zero-noise clause N = 6 with fixed(2)',
+    'thorough': 'up to 6 members on up to 4 workers; complete ensemble with up to 4 members on up to 3 workers; zero-noise clause N <= 7, caps 1..3, fixed(1) and fixed(2)',
 }
 OUTSIDE = 'the bit generator itself (independence is decided at the level of stream positions: two members fed from the same state and position ' \
           'receive identical numbers); OS scheduling (any assignment of jobs to workers is considered possible); larger ensembles'
@@ -35,12 +35,17 @@ OPTS = {'quick': {'sample_every': 3, 'concolic': False}, 'thorough': {'sample_ev
 def configs(tier):
     q = tier == 'quick'
     out = []
-    grid = [(2, 1), (2, 2), (3, 2)] if q else [(2, 1), (2, 2), (3, 2), (4, 2), (3, 3), (4, 3)]
+    grid = [(2, 1), (2, 2), (3, 2)] if q else [(2, 1), (2, 2), (3, 2), (4, 2), (3, 3), (4, 3), (5, 2), (5, 3), (5, 4), (6, 3)]
     for nens, P in grid:
         for mode in ('single', 'flip'):
             out.append(('ensemble-n%d-P%d-%s' % (nens, P, mode), {'kind': 'ens', 'nens': nens, 'P': P, 'mode': mode, 'N': 4}))
     for P in (1, 2):
         out.append(('complete-n2-P%d' % P, {'kind': 'complete', 'nens': 2, 'P': P, 'mode': 'single', 'N': 4}))
+    if not q:
+        for nens, P in ((3, 1), (3, 2), (3, 3), (4, 2)):
+            out.append(('complete-n%d-P%d' % (nens, P), {'kind': 'complete', 'nens': nens, 'P': P, 'mode': 'single', 'N': 4}))
+        out.append(('zero-noise-N7-cap2-fixed2', {'kind': 'zero', 'N': 7, 'k': 2, 'stop': 'fixed2'}))
+        out.append(('zero-noise-N7-cap3', {'kind': 'zero', 'N': 7, 'k': 3, 'stop': 'fixed1'}))
     for k in (1, 2):
         out.append(('zero-noise-N6-cap%d' % k, {'kind': 'zero', 'N': 6, 'k': k, 'stop': 'fixed1' if q or k == 1 else 'fixed2'}))
     out.append(('zero-noise-integer-input', {'kind': 'zero', 'N': 8, 'k': 2, 'stop': 'fixed1', 'int_input': True}))
